@@ -80,6 +80,10 @@ type Result struct {
 	Fail      string // property-oracle failure ("" = held)
 	Sig       string // failure signature (for known-findings matching)
 	SkipModel bool   // oracle-only op: not sent to the model
+	// ModelOp, when non-empty, is the line sent to the model instead of the op itself: the op
+	// plus choices the implementation made that the model takes as arguments (e.g. a Go map
+	// iteration order observed from the outcome). Empty = the op is sent unchanged.
+	ModelOp string
 }
 
 // Exec runs ops of one case against the real code.
@@ -136,6 +140,14 @@ type caseRun struct {
 	sent []int // indices of ops sent to the model
 }
 
+// modelOp is the line the model receives for op i.
+func (c caseRun) modelOp(i int) string {
+	if i < len(c.res) && c.res[i].ModelOp != "" {
+		return c.res[i].ModelOp
+	}
+	return c.ops[i]
+}
+
 const OpTimeout = 30 * time.Second
 
 func doOp(e Exec, op string) (r Result) {
@@ -180,7 +192,7 @@ func runModel(driver, id string, cases []caseRun) ([][]string, error) {
 	for _, c := range cases {
 		in.WriteString("case\n")
 		for _, i := range c.sent {
-			in.WriteString(c.ops[i])
+			in.WriteString(c.modelOp(i))
 			in.WriteByte('\n')
 		}
 	}
@@ -427,7 +439,7 @@ func Run(p Prop, cfg Config) (*Output, error) {
 		opsF.WriteString("case\n")
 		implF.WriteString("case\n")
 		for _, i := range c.sent {
-			opsF.WriteString(c.ops[i] + "\n")
+			opsF.WriteString(c.modelOp(i) + "\n")
 			implF.WriteString(c.res[i].Impl + "\n")
 		}
 	}
